@@ -50,7 +50,15 @@ def _gen_one(job):
                  for ob in rep.reach[:6]]
     else:
         reach = []
+    shape = None
+    if kind != "lemma":
+        try:
+            from .extract import loop_shape
+            shape = loop_shape(repo.function(qualname)[1])
+        except Exception:
+            shape = None
     return {
+        "shape": shape,
         "pending": getattr(rep, "pending", []),
         "qualname": qualname, "kind": kind, "status": rep.status, "reason": rep.reason, "paths": rep.paths,
         "exit_paths": rep.exit_paths, "vcs": vcs, "reach": reach, "assumptions": sorted(rep.assumptions),
